@@ -1171,6 +1171,15 @@ VARIANTS = [
     {"name": "twin-undefined-classes-filter-as-its-own-statement", "rule": "R20.22",
      "expect": "silent",
      "edits": [(MP, _STEP22, ""),
+               (MP, "    merged_cst = _merge_csts(",
+                "    defined = class_collector.class_names\n"
+                "    pyi_cst = pyi_cst.visit(RemoveUndefinedClassesTransformer(defined))\n"
+                "    merged_cst = _merge_csts(")]},
+    # dropping first and collecting the stub's class names afterwards leaves the
+    # references into the dropped classes dotted
+    {"name": "undefined-classes-dropped-before-the-stub-names-are-collected",
+     "rule": "R20.23", "expect": "fire",
+     "edits": [(MP, _STEP22, ""),
                (MP, "    stub_class_collector = _ClassNameCollector()\n",
                 "    defined = class_collector.class_names\n"
                 "    pyi_cst = pyi_cst.visit(RemoveUndefinedClassesTransformer(defined))\n"
@@ -1192,9 +1201,11 @@ VARIANTS = [
     _v("subscript-of-nested-class-left-around-the-string", "R20.23", _LEAVE_SUB, ""),
     _v("nested-class-names-of-an-empty-collector", "R20.23",
        "    pyi_cst.visit(stub_class_collector)\n", ""),
-    _v("twin-nested-class-names-from-the-source-collector", "R20.23",
+    # the source's class names miss the stub-only classes: a reference into a
+    # dropped class (`P.x` for `P = NamedTuple(..)`) stays dotted
+    _v("nested-class-names-from-the-source-collector", "R20.23",
        "QuoteNestedClassesTransformer(stub_class_collector.class_names)",
-       "QuoteNestedClassesTransformer(class_collector.class_names)", "silent"),
+       "QuoteNestedClassesTransformer(class_collector.class_names)"),
     _v("twin-nested-class-test-with-a-cursor", "R20.23", _PRED,
        "    cur = node\n    depth = 0\n"
        "    while isinstance(cur, cst.Attribute):\n"
